@@ -350,7 +350,7 @@ impl Display for Pipeline {
         }
         for (i, command) in self.seq.iter().enumerate() {
             if i > 0 {
-                write!(f, " |")?;
+                write!(f, " | ")?;
             }
             write!(f, "{command}")?;
         }
